@@ -102,8 +102,8 @@ Variable shuffle : nat -> list entry -> list entry.
 Hypothesis shuffle_In : forall c l e, In e (shuffle c l) <-> In e l.
 
 Notation idx_steps := (index_steps shuffle false).
-Notation steps := (op_steps H shuffle false).
-Notation runop := (run_op H shuffle false).
+Notation steps := (op_steps H shuffle false false).
+Notation runop := (run_op H shuffle false false).
 
 (* ---------- Recoverable only looks at oci-layout, index.json and blobs/ ---------- *)
 Definition nt_eq (a c : FS) : Prop := forall p, is_temp p = false -> files a p = files c p.
@@ -626,7 +626,7 @@ Lemma op_safe s o :
   Inv (runop s o) /\
   (forall d', exists_file (sfs (runop s o)) (FBlob d')
               = spec_blobs_step H (fun x => exists_file (sfs s) (FBlob x)) o d') /\
-  forall k, Recoverable H (sfs s) (crash_fs H shuffle false s o k) (sfs (runop s o)).
+  forall k, Recoverable H (sfs s) (crash_fs H shuffle false false s o k) (sfs (runop s o)).
 Proof.
   intro I. unfold run_op, crash_fs, op_steps. destruct o as [d cont man|d r|r|d|].
   - (* Push *)
@@ -684,22 +684,22 @@ Proof.
   - exists []. split; [reflexivity|]. intro e. cbn. tauto.
 Qed.
 
-Lemma inv_run h : forall s, Inv s -> Inv (run H shuffle false h s).
+Lemma inv_run h : forall s, Inv s -> Inv (run H shuffle false false h s).
 Proof.
   induction h as [|o h IH]; intros s I; [exact I|].
   cbn [run fold_left]. apply IH. now apply op_safe.
 Qed.
 
 Theorem crash_safe h o k :
-  let s := run H shuffle false h init in
-  Recoverable H (sfs s) (crash_fs H shuffle false s o k) (sfs (run_op H shuffle false s o)).
+  let s := run H shuffle false false h init in
+  Recoverable H (sfs s) (crash_fs H shuffle false false s o k) (sfs (run_op H shuffle false false s o)).
 Proof. intro s. apply op_safe. apply inv_run. apply inv_init. Qed.
 
 (* what the statement says in words, as corollaries *)
 Corollary crash_tags_before_or_after h o k :
-  let s := run H shuffle false h init in
-  let fsk := crash_fs H shuffle false s o k in
-  same_tags fsk (sfs s) \/ same_tags fsk (sfs (run_op H shuffle false s o)).
+  let s := run H shuffle false false h init in
+  let fsk := crash_fs H shuffle false false s o k in
+  same_tags fsk (sfs s) \/ same_tags fsk (sfs (run_op H shuffle false false s o)).
 Proof.
   intros s fsk. destruct (crash_safe h o k) as (_ & _ & (l & Hl & _) & R & _).
   fold s in Hl, R. fold fsk in Hl, R. destruct R as [R|R]; [left|right];
@@ -777,14 +777,14 @@ Qed.
 
 Lemma rel_run h : forall s bs tg,
   Inv s -> Rel s bs tg ->
-  Rel (run H shuffle false h s) (fst (spec_run H h bs tg)) (snd (spec_run H h bs tg)).
+  Rel (run H shuffle false false h s) (fst (spec_run H h bs tg)) (snd (spec_run H h bs tg)).
 Proof.
   induction h as [|o h IH]; intros s bs tg I R; [exact R|].
   cbn [run fold_left spec_run]. apply IH; [now apply op_safe|now apply rel_step].
 Qed.
 
 Theorem completed_effects h :
-  let s := run H shuffle false h init in
+  let s := run H shuffle false false h init in
   let bs := fst (spec_run H h (fun _ => false) (fun _ => None)) in
   let tg := snd (spec_run H h (fun _ => false) (fun _ => None)) in
   (forall d, exists_file (sfs s) (FBlob d) = bs d) /\
@@ -804,9 +804,9 @@ End Crash.
 (* ---------- the code before the repair: index.json written in place ---------- *)
 Lemma crash_unsafe_inplace (H : list N -> N) :
   exists h o k,
-    let s := run H (fun _ l => l) true h init in
-    ~ Recoverable H (sfs s) (crash_fs H (fun _ l => l) true s o k)
-        (sfs (run_op H (fun _ l => l) true s o)).
+    let s := run H (fun _ l => l) true false h init in
+    ~ Recoverable H (sfs s) (crash_fs H (fun _ l => l) true false s o k)
+        (sfs (run_op H (fun _ l => l) true false s o)).
 Proof.
   exists [], SaveIndex, 1%nat. cbn zeta. intros (_ & _ & (l & Hl & _) & _).
   cbn in Hl. discriminate.
@@ -814,6 +814,60 @@ Qed.
 
 (* after the cut between open(O_TRUNC) and write, index.json is empty: a reader cannot parse it *)
 Lemma crash_inplace_index_unreadable (H : list N -> N) :
-  read_index (crash_fs H (fun _ l => l) true init SaveIndex 1) = None.
+  read_index (crash_fs H (fun _ l => l) true false init SaveIndex 1) = None.
 Proof. reflexivity. Qed.
+
+(* Store.delete with the two effects swapped (blob unlinked before index.json is rewritten):
+   a cut between them leaves an index entry that names a missing blob *)
+Lemma crash_unsafe_unlink_first :
+  exists H h o k,
+    let s := run H (fun _ l => l) false true h init in
+    ~ Recoverable H (sfs s) (crash_fs H (fun _ l => l) false true s o k)
+        (sfs (run_op H (fun _ l => l) false true s o)).
+Proof.
+  exists (fun _ => 2), [Push 2 [9] true], (Delete 2), 1%nat. cbn zeta.
+  intros (_ & _ & (l & Hl & He) & _).
+  vm_compute in Hl. injection Hl as <-.
+  specialize (He (2, None) (or_introl eq_refl)). apply He. vm_compute. reflexivity.
+Qed.
+
+(* ---------- the configuration read off the Go source is the proved one ---------- *)
+Lemma src_inplace_false : src_inplace = false.
+Proof. vm_compute. reflexivity. Qed.
+
+Lemma src_unlink_first_false : src_unlink_first = false.
+Proof. vm_compute. reflexivity. Qed.
+
+Lemma src_push_order : src_push_order_ok = true.
+Proof. vm_compute. reflexivity. Qed.
+
+Theorem crash_safe_src :
+  forall (H : list N -> N) (shuffle : nat -> list entry -> list entry),
+    (forall c l e, In e (shuffle c l) <-> In e l) ->
+    forall (h : list op) (o : op) (k : nat),
+      let s := run H shuffle src_inplace src_unlink_first h init in
+      Recoverable H (sfs s) (crash_fs H shuffle src_inplace src_unlink_first s o k)
+        (sfs (run_op H shuffle src_inplace src_unlink_first s o)).
+Proof. rewrite src_inplace_false, src_unlink_first_false. exact crash_safe. Qed.
+
+Theorem crash_tags_src :
+  forall (H : list N -> N) (shuffle : nat -> list entry -> list entry),
+    (forall c l e, In e (shuffle c l) <-> In e l) ->
+    forall (h : list op) (o : op) (k : nat),
+      let s := run H shuffle src_inplace src_unlink_first h init in
+      let fsk := crash_fs H shuffle src_inplace src_unlink_first s o k in
+      same_tags fsk (sfs s) \/
+      same_tags fsk (sfs (run_op H shuffle src_inplace src_unlink_first s o)).
+Proof. rewrite src_inplace_false, src_unlink_first_false. exact crash_tags_before_or_after. Qed.
+
+Theorem completed_effects_src :
+  forall (H : list N -> N) (shuffle : nat -> list entry -> list entry),
+    (forall c l e, In e (shuffle c l) <-> In e l) ->
+    forall (h : list op),
+      let s := run H shuffle src_inplace src_unlink_first h init in
+      let bs := fst (spec_run H h (fun _ => false) (fun _ => None)) in
+      let tg := snd (spec_run H h (fun _ => false) (fun _ => None)) in
+      (forall d, exists_file (sfs s) (FBlob d) = bs d) /\
+      exists l, read_index (sfs s) = Some l /\ forall r n, tag_of l r n <-> tg r = Some n.
+Proof. rewrite src_inplace_false, src_unlink_first_false. exact completed_effects. Qed.
 
